@@ -1,38 +1,159 @@
-(* C02 — no silent failure.  Property theorems only (see C03.v for the model). *)
-From Coq Require Import ZArith List Bool Arith Permutation.
-Require Import Model.Base Gen.Category Model.Runner Spec.RunnerSpec Proofs.RunnerProofs.
-Import ListNotations.
+(* C02 — no silent failure.  Property theorems only.
 
-(* every failure class of the property text: the error-level report by which
-   it manifests itself (Spec.RunnerSpec.manifests: a label-less parse report for a
-   missing / unreadable file, an unsupported pragma, several mains; a parse
-   report located in a user file for lexical / syntactic errors, invalid tuples
-   and anonymous components, duplicate definitions; the lift error of a user
-   definition for duplicate parameters and other CFG/SSA failures) is displayed
-   and the exit status is 1 — for all definition sets, analysis orders, lookups
-   and all options that do not allow-list that very id *)
-Theorem C02_failure_classes_reported : forall p o order c r,
-  wf_project p -> analysis_order p order ->
-  manifests p c r -> ~ In (r_id r) (o_allow o) ->
-  In r (res_shown (run_keys p o order)) /\ r_level r = Error /\ res_exit (run_keys p o order) = 1%Z.
-Proof. exact failure_classes_reported. Qed.
+   Two mirrors are joined here: Model.Includes (C19: FileStack, the parse_files
+   loop — which files are read, the FileLibrary with its user flags, the OS /
+   include / parse error reports) and Model.Runner (C03: caches, writers,
+   filters, exit status), by Model.Front (errors.rs `into_report`,
+   FileLibrary::user_inputs, the hand-over in cli/src/main.rs).  The file
+   system (any type of paths with decidable equality, any canon, is_dir,
+   is_file, read_dir, join, parent, file_name, ext_circom, starts_dot, has_sep,
+   content with canon idempotent), the command line, the -L list, the reports
+   of the stages outside the mirrors ([others]), the definitions with what
+   lifting and the passes produce for them ([defs]), the options and the
+   analysis order are universally quantified.
+
+   For the failure classes the mirrors can express — a named path that cannot
+   be opened, a file whose content cannot be read, a named file that does not
+   parse, an include of a named file that resolves nowhere — the hypothesis
+   ([failure_event], Spec.NoSilentSpec) is a fact about the FILE SYSTEM; that
+   the error report is in the project handed to the runner, with a location
+   that passes the file filter, is derived.  For the classes produced by
+   stages outside both mirrors the report is a member of [others] (observed
+   by the injection matrix of lib/props/C02.py). *)
+From Coq Require Import ZArith Permutation Ascii String.
+Require Import Gen.Category Model.Runner Spec.RunnerSpec Proofs.RunnerProofs.
+From stdpp Require Import list strings.
+Require Import Model.Includes Model.Front Spec.IncludesSpec Spec.NoSilentSpec Proofs.NoSilentProofs.
+
+(* every failure class: the report of the event is displayed, it is error
+   level, and the exit status is 1 — unless that very id is allow-listed *)
+Theorem C02_failure_classes_reported :
+  forall (path : Type) (EqDecision0 : EqDecision path)
+         (canon : path -> option path) (is_dir is_file : path -> bool)
+         (read_dir : path -> option (list path)) (join : path -> path -> path)
+         (parent : path -> path) (file_name : path -> option path)
+         (ext_circom starts_dot has_sep : path -> bool) (content : path -> file_content path),
+    (forall p c, canon p = Some c -> canon c = Some c) ->
+    forall (pf_id pf_name : Z) (payload : Includes.report (path:=path) -> Z)
+           (dfuel fuel : nat) (argv libs : list path) (s : parse_state),
+      parse_files canon is_dir is_file read_dir join parent file_name ext_circom starts_dot has_sep content
+                  false dfuel fuel argv libs = Base.Ok s ->
+      forall (others : list Runner.report) (defs : list def) (o : opts) (order : list key)
+             (c : failure_class) (r : Runner.report),
+        wf_project (front_project pf_id pf_name payload s others defs) ->
+        analysis_order (front_project pf_id pf_name payload s others defs) order ->
+        failure_event canon is_dir is_file read_dir join parent file_name ext_circom starts_dot has_sep content
+                      pf_id pf_name payload argv libs s others defs c r ->
+        ~ In (r_id r) (o_allow o) ->
+        In r (res_shown (run_keys (front_project pf_id pf_name payload s others defs) o order)) /\
+        r_level r = Error /\
+        res_exit (run_keys (front_project pf_id pf_name payload s others defs) o order) = 1%Z.
+Proof. exact @failure_classes_reported. Qed.
 Print Assumptions C02_failure_classes_reported.
 
-(* exit status 0 ("No issues found.") only if nothing that was produced is to
-   be kept and every definition of a user file was taken up for analysis; and,
-   when nothing is allow-listed, only if every error-level report of the
-   parser and every lift/SSA error of a user definition is located solely in
-   an included file (for a project without such reports: every user file was
-   read and every user definition was lifted and analysed) *)
+(* the events of the Includes mirror are not hypothetical: a named file that
+   does not parse, an include statement of a named file that resolves nowhere,
+   has its event (for a path that cannot be opened and for an unreadable file
+   the event is the file-system fact itself, see Spec.NoSilentSpec) *)
+Theorem C02_front_failures_have_reports :
+  forall (path : Type) (EqDecision0 : EqDecision path)
+         (canon : path -> option path) (is_dir is_file : path -> bool)
+         (read_dir : path -> option (list path)) (join : path -> path -> path)
+         (parent : path -> path) (file_name : path -> option path)
+         (ext_circom starts_dot has_sep : path -> bool) (content : path -> file_content path),
+    (forall p c, canon p = Some c -> canon c = Some c) ->
+    forall (pf_id pf_name : Z) (payload : Includes.report (path:=path) -> Z)
+           (dfuel fuel : nat) (argv libs : list path) (s : parse_state),
+      parse_files canon is_dir is_file read_dir join parent file_name ext_circom starts_dot has_sep content
+                  false dfuel fuel argv libs = Base.Ok s ->
+      forall (others : list Runner.report) (defs : list def),
+        (forall f, named canon is_dir read_dir join ext_circom argv f -> content f = Unparsable ->
+           exists r, failure_event canon is_dir is_file read_dir join parent file_name ext_circom starts_dot
+                                   has_sep content pf_id pf_name payload argv libs s others defs SyntaxError r) /\
+        (forall f incs p a b,
+           named canon is_dir read_dir join ext_circom argv f -> content f = Parsed incs -> (p, a, b) ∈ incs ->
+           resolves canon is_file join parent file_name starts_dot has_sep f
+                    (the_libraries canon is_dir ext_circom libs) p None ->
+           exists r, failure_event canon is_dir is_file read_dir join parent file_name ext_circom starts_dot
+                                   has_sep content pf_id pf_name payload argv libs s others defs UnresolvedInclude r).
+Proof. exact @front_failures_have_reports. Qed.
+Print Assumptions C02_front_failures_have_reports.
+
+(* exit status 0 ("No issues found.") with the parse-failure id not allow-listed
+   only if every path the command line stands for could be opened, every file
+   reached was readable, every named file parsed and had each include served
+   by a file that was read; and every definition living in a named file was
+   taken up by the runner (its `analyzing` line is in the log) and, unless the
+   id of its error is allow-listed, lifted *)
+Theorem C02_clean_only_if_all_read_and_analysed :
+  forall (path : Type) (EqDecision0 : EqDecision path)
+         (canon : path -> option path) (is_dir is_file : path -> bool)
+         (read_dir : path -> option (list path)) (join : path -> path -> path)
+         (parent : path -> path) (file_name : path -> option path)
+         (ext_circom starts_dot has_sep : path -> bool) (content : path -> file_content path),
+    (forall p c, canon p = Some c -> canon c = Some c) ->
+    forall (pf_id pf_name : Z) (payload : Includes.report (path:=path) -> Z)
+           (dfuel fuel : nat) (argv libs : list path) (s : parse_state),
+      parse_files canon is_dir is_file read_dir join parent file_name ext_circom starts_dot has_sep content
+                  false dfuel fuel argv libs = Base.Ok s ->
+      forall (others : list Runner.report) (defs : list def) (o : opts) (order : list key),
+        wf_project (front_project pf_id pf_name payload s others defs) ->
+        analysis_order (front_project pf_id pf_name payload s others defs) order ->
+        res_exit (run_keys (front_project pf_id pf_name payload s others defs) o order) = 0%Z ->
+        ~ In pf_id (o_allow o) ->
+        all_named_read canon is_dir is_file read_dir join parent file_name ext_circom starts_dot has_sep content
+                       argv libs s /\
+        (forall d, In d defs -> file_is_named canon is_dir read_dir join ext_circom argv s (d_file d) ->
+           In (MAnalyzing (d_key d))
+              (res_log (run_keys (front_project pf_id pf_name payload s others defs) o order)) /\
+           (forall e, d_err d = Some e -> r_level e = Error ->
+                      not_in_included_only canon is_dir read_dir join ext_circom argv s e ->
+                      In (r_id e) (o_allow o))).
+Proof. exact @clean_only_if_all_read_and_analysed. Qed.
+Print Assumptions C02_clean_only_if_all_read_and_analysed.
+
+(* the user-input set handed to the file filter is the set of file ids of the
+   named files — also for a named file that another named file includes and
+   that is therefore read before its own turn *)
+Theorem C02_user_ids_are_named_files :
+  forall (path : Type) (EqDecision0 : EqDecision path)
+         (canon : path -> option path) (is_dir is_file : path -> bool)
+         (read_dir : path -> option (list path)) (join : path -> path -> path)
+         (parent : path -> path) (file_name : path -> option path)
+         (ext_circom starts_dot has_sep : path -> bool) (content : path -> file_content path),
+    (forall p c, canon p = Some c -> canon c = Some c) ->
+    forall (dfuel fuel : nat) (argv libs : list path) (s : parse_state),
+      parse_files canon is_dir is_file read_dir join parent file_name ext_circom starts_dot has_sep content
+                  false dfuel fuel argv libs = Base.Ok s ->
+      forall z, In z (user_ids s) <-> file_is_named canon is_dir read_dir join ext_circom argv s z.
+Proof. exact @user_id_iff_named. Qed.
+Print Assumptions C02_user_ids_are_named_files.
+
+(* runner level, for any project (also one that is not the image of a run of
+   the Includes mirror): an error-level report that is produced and is not
+   located solely in included files is displayed and makes the exit status 1 *)
+Theorem C02_error_report_displayed : forall p o order r,
+  wf_project p -> analysis_order p order ->
+  In r (produced p) -> r_level r = Error -> ~ located_only_in_included (p_user p) r ->
+  ~ In (r_id r) (o_allow o) ->
+  In r (res_shown (run_keys p o order)) /\ r_level r = Error /\ res_exit (run_keys p o order) = 1%Z.
+Proof. exact error_report_displayed. Qed.
+Print Assumptions C02_error_report_displayed.
+
+(* runner level: exit status 0 only if nothing that was produced is to be
+   kept and every definition of a user file was taken up by the runner (its
+   `analyzing` line was written); and, when nothing is allow-listed, only if
+   every error-level report of the parser and every lift/SSA error of a user
+   definition is located solely in an included file *)
 Theorem C02_clean_only_if_all_analysed : forall p o order,
   wf_project p -> analysis_order p order ->
   res_exit (run_keys p o order) = 0%Z ->
   (forall r, In r (produced p) -> ~ keep o (p_user p) r) /\
-  (forall d, In d (user_defs p) -> In (d_key d) order) /\
+  (forall d, In d (user_defs p) -> In (MAnalyzing (d_key d)) (res_log (run_keys p o order))) /\
   (o_allow o = [] ->
      (forall r, In r (p_parse p) -> r_level r = Error -> located_only_in_included (p_user p) r) /\
      (forall d e, In d (user_defs p) -> d_err d = Some e -> r_level e = Error -> located_only_in_included (p_user p) e)).
-Proof. exact clean_only_if_all_analysed. Qed.
+Proof. exact NoSilentProofs.clean_only_if_all_analysed. Qed.
 Print Assumptions C02_clean_only_if_all_analysed.
 
 (* the summary line belongs to the exit status *)
@@ -61,24 +182,78 @@ Theorem C02_no_definition_dropped : forall srcs,
 Proof. exact build_library_nodup. Qed.
 Print Assumptions C02_no_definition_dropped.
 
-(* non-vacuity: each kind of manifestation with a concrete project *)
-Definition ex_missing : report := mkReport Error 1000 1000 [] 1.
-Definition ex_syntax : report := mkReport Error 1000 1000 [0%Z] 2.
-Definition ex_collision : report := mkReport Error 2 2 [0%Z] 3.
-Definition ex_T : def := mkDef KTemplate 1 0 [] (Some ex_collision) [] [].
-Definition ex_p : project := mkProject [ex_missing; ex_syntax] [ex_T] [0%Z].
+(* ---- non-vacuity ----------------------------------------------------------
+   A concrete file system run through the extracted instance
+   (Includes.run_project): `circomspect b.circom a.circom nosuch.circom bad.circom`
+   in /r.  a.circom includes x.circom (which is nowhere) and b.circom;
+   bad.circom does not parse; nosuch.circom does not exist.  The stack is LIFO:
+   bad.circom is read first, then a.circom, whose include pulls b.circom before
+   the turn its own place on the command line would give it (the shape of the
+   seeded change C02-user-input-by-pop-order).  The three reports are there,
+   the user-input ids are those of all three files that were read (b.circom,
+   id 2, included), and the runner displays the three reports and exits with 1. *)
+Definition ex_fs : fs_data := FsData
+  [ (str "a.circom", Some (str "/r/a.circom")); (str "nosuch.circom", None);
+    (str "bad.circom", Some (str "/r/bad.circom")); (str "b.circom", Some (str "/r/b.circom"));
+    (str "/r/a.circom", Some (str "/r/a.circom")); (str "/r/bad.circom", Some (str "/r/bad.circom"));
+    (str "/r/b.circom", Some (str "/r/b.circom")); (str "/r/x.circom", None) ]
+  []
+  [ str "/r/a.circom"; str "/r/bad.circom"; str "/r/b.circom" ]
+  [ (str "/r/a.circom", Parsed [ (str "x.circom", 21, 40); (str "b.circom", 41, 60) ]);
+    (str "/r/bad.circom", Unparsable);
+    (str "/r/b.circom", Parsed []) ].
+Definition ex_argv : list spath := [ str "b.circom"; str "a.circom"; str "nosuch.circom"; str "bad.circom" ].
+Definition ex_pay (r : Includes.report (path:=spath)) : Z :=
+  match r with FileOsError _ => 1 | ParsingError _ => 2 | IncludeError _ _ _ _ => 3 end%Z.
+Definition ex_opts : opts := mkOpts Error [] false false.
 
 Example C02_witnesses :
-  wf_project ex_p /\ analysis_order ex_p [(KTemplate, 1%Z)] /\
-  manifests ex_p MissingFile ex_missing /\ manifests ex_p SyntaxError ex_syntax /\
-  manifests ex_p DuplicateParameter ex_collision /\
-  res_exit (run_keys ex_p (mkOpts Error [] false false) [(KTemplate, 1%Z)]) = 1%Z /\
-  res_shown (run_keys ex_p (mkOpts Error [] false false) [(KTemplate, 1%Z)]) = [ex_missing; ex_syntax; ex_collision].
+  canon_idempotent_b ex_fs = true /\
+  exists s, run_project false ex_fs ex_argv [] = Base.Ok s /\
+    ps_read s = [ str "/r/bad.circom"; str "/r/a.circom"; str "/r/b.circom" ] /\
+    ps_reports s = [ FileOsError (str "nosuch.circom"); ParsingError 0; IncludeError (str "x.circom") (Some 1) 21 40 ] /\
+    user_ids s = [ 0; 1; 2 ]%Z /\
+    res_exit (run_keys (front_project 1000 1000 ex_pay s [] []) ex_opts []) = 1%Z /\
+    res_shown (run_keys (front_project 1000 1000 ex_pay s [] []) ex_opts []) =
+      [ mkReport Error 1000 1000 [] 1; mkReport Error 1000 1000 [0%Z] 2; mkReport Error 1000 1000 [1%Z] 3 ].
 Proof.
+  split; [reflexivity|]. eexists. split; [vm_compute; reflexivity|].
+  repeat split; vm_compute; reflexivity.
+Qed.
+
+(* the hypotheses of C02_failure_classes_reported are satisfiable for a class
+   of each producer: a derived one (the named path nosuch.circom cannot be
+   canonicalised), one of the lifter (a definition of file 1 with an error),
+   one of another stage (a label-less error in [others]) *)
+Definition ex_lift_err : Runner.report := mkReport Error 2 2 [1%Z] 7.
+Definition ex_T : def := mkDef KTemplate 1 1 [] (Some ex_lift_err) [] [].
+Definition ex_pragma : Runner.report := mkReport Error 3 3 [] 8.
+
+Example C02_events_satisfiable :
+  exists s, run_project false ex_fs ex_argv [] = Base.Ok s /\
+    wf_project (front_project 1000 1000 ex_pay s [ex_pragma] [ex_T]) /\
+    analysis_order (front_project 1000 1000 ex_pay s [ex_pragma] [ex_T]) [(KTemplate, 1%Z)] /\
+    failure_event (d_canon ex_fs) (d_is_dir ex_fs) (d_is_file ex_fs) (d_read_dir ex_fs) s_join s_parent s_file_name
+                  s_ext_circom s_starts_dot s_has_sep (d_content ex_fs) 1000 1000 ex_pay ex_argv [] s
+                  [ex_pragma] [ex_T] MissingFile (mkReport Error 1000 1000 [] 1) /\
+    failure_event (d_canon ex_fs) (d_is_dir ex_fs) (d_is_file ex_fs) (d_read_dir ex_fs) s_join s_parent s_file_name
+                  s_ext_circom s_starts_dot s_has_sep (d_content ex_fs) 1000 1000 ex_pay ex_argv [] s
+                  [ex_pragma] [ex_T] LiftFailure ex_lift_err /\
+    failure_event (d_canon ex_fs) (d_is_dir ex_fs) (d_is_file ex_fs) (d_read_dir ex_fs) s_join s_parent s_file_name
+                  s_ext_circom s_starts_dot s_has_sep (d_content ex_fs) 1000 1000 ex_pay ex_argv [] s
+                  [ex_pragma] [ex_T] BadPragma ex_pragma.
+Proof.
+  eexists. split; [vm_compute; reflexivity|].
+  assert (Hnamed : named (d_canon ex_fs) (d_is_dir ex_fs) (d_read_dir ex_fs) s_join s_ext_circom ex_argv (str "/r/a.circom")).
+  { exists (str "a.circom"). split; [right; left|]. apply expands_file; reflexivity. }
   split. { unfold wf_project. simpl. repeat constructor. intros []. }
   split. { vm_compute. apply Permutation_refl. }
-  split. { split. reflexivity. simpl. auto. }
-  split. { split. reflexivity. simpl. split; auto. exists 0%Z. simpl. auto. }
-  split. { split. reflexivity. simpl. exists ex_T. split. vm_compute; auto. split. reflexivity. right. exists 0%Z. simpl. auto. }
-  vm_compute. split; reflexivity.
+  split. { simpl. exists (str "nosuch.circom"), (str "nosuch.circom"). split; [do 2 right; left|].
+           split; [apply fto_file; reflexivity|reflexivity]. }
+  split.
+  { simpl. split; [reflexivity|]. split.
+    - right. exists 1%Z. split; [left; reflexivity|]. exists 1, (str "/r/a.circom"), true. repeat split; assumption.
+    - exists ex_T. split; [left; reflexivity|]. split; [|reflexivity].
+      exists 1, (str "/r/a.circom"), true. repeat split; assumption. }
+  simpl. split; [reflexivity|]. split; [left; reflexivity|reflexivity].
 Qed.
